@@ -24,6 +24,7 @@ def run(tier, seed):
     nl, rq = (6, 40) if tier == "quick" else (80, 80)
     netcommon.corpus_stage(v, wd, seed, nl, rq)
     netcommon.random_lists(v, wd, seed + 1000, 300 if tier == "quick" else 3000)
+    vlib.scale_stage(v, wd, "C04")
     return v.finish("model_checking",
                     "precedence + monotonicity: all lists of <= %d rules from the 37-rule c01 pool (token-boundary cases, exceptions, "
                     "important, tags, domains, badfilter twins) and the c01d pool x tag sets x requests; badfilter: all pairs%s from 13 base "
